@@ -23,7 +23,13 @@ ASSUMPTIONS = [
   "sizes/hops beyond the bound behave like those inside it (small-scope hypothesis)",
 ]
 
-PADS = {"0.": 0., "None": None, "str": "pad", "tuple": ("p", 1)}
+class Sentinel(object):
+  """A pad value with identity only (no useful ==): padding must be the object itself."""
+  def __repr__(self):
+    return "<sentinel>"
+
+
+PADS = {"0.": 0., "None": None, "str": "pad", "tuple": ("p", 1), "sentinel": Sentinel(), "list": ["mutable", "pad"]}
 ROUTES = ["func-list", "func-gen", "func-stream", "method", "func-hopdefault",
           "method-hopdefault", "func-positional"]
 
@@ -115,6 +121,12 @@ def run_blocks(case):
   nontriv = len(exp) > 0
   outcome = (len(exp), bool(exp) and len(exp) > 0 and
              (len(L) < (len(exp) - 1) * hop + size))
+  if got == exp and padk in ("sentinel", "list", "tuple") and exp:
+    npad = sum(1 for v in exp[-1] if v is pad)
+    if sum(1 for v in got[-1] if v is pad) != npad:
+      return bad("blocks:pad-identity", "the final block is padded with the pad value itself (the same object), "
+                 "not with copies of it", "%d items that are the pad object" % npad,
+                 "%d" % sum(1 for v in got[-1] if v is pad), nontriv, outcome)
   if got != exp:
     key = "blocks:" + ("count" if len(got) != len(exp) else "content")
     return bad(key, "blocks differ from the hop-spaced windows of the input",
@@ -175,6 +187,18 @@ def run_zero_pad(case):
   else:
     zero = 0.
     it = zero_pad(L, left=left, right=right)
+  if route == "gen" and n >= 2:
+    # a padded view that is abandoned half way (closed / dropped) must leave the caller's generator usable
+    src = (x for x in L)
+    view = zero_pad(src, left, right, zero=zero)
+    head = [next(view) for _ in range(left + 1)]
+    view.close()
+    del view
+    rest = list(src)
+    if head != [zero] * left + L[:1] or rest != L[1:]:
+      return bad("zero_pad:abandoned", "abandoning a zero_pad view after k items must leave the source generator with "
+                 "its remaining items", {"head": [zero] * left + L[:1], "rest": L[1:]}, {"head": head, "rest": rest}, True,
+                 (left > 0, right > 0, n > 0))
   got = list(it)
   exp = [zero] * left + L + [zero] * right
   ok = len(got) == len(exp) and all(
